@@ -438,6 +438,73 @@ def replay_scheme(point):
     return None
 
 
+# ---------------------------------------------------------------------------
+# the identities above are proven for the tower requested at one matching order; the evolution requests it at every order up to
+# the documented maximum: the O(a_s^m) element must be the same matrix whatever length of tower is asked for
+# ---------------------------------------------------------------------------
+TOWER_MAX = {"sl": 3, "pol": 2, "tl": 3}  # tl: elements beyond O(a_s) are documented as unknown and taken as zero
+
+
+def case_tower(log, kind):
+    om = E.mod(OME[kind])
+    log.encode(om.A_singlet, om.A_non_singlet)
+
+    def run():
+        E.unpatch()
+        E.patch()
+        stub = E.install_psi()
+        N = SR.var("N")
+        assume(N - 2, ">0")
+        nf = SR.var("nf")
+        E.box(nf, 3, 5)
+        L = SR.var("L")
+        E.box(L, -3, 3)
+        kmax = TOWER_MAX[kind]
+        for msbar in ((False, True) if kind == "sl" else (False,)):
+            towers = {k: _ome(kind, k, N, nf, L, msbar) for k in range(1, kmax + 1)}
+            for k in range(2, kmax + 1):
+                for m in range(k):
+                    ref_len = m + 1
+                    for which, dim in ((0, 3), (1, 2)):
+                        a, b = towers[k][which][m], towers[ref_len][which][m]
+                        for i in range(dim):
+                            for j in range(dim):
+                                v = prove_zero(Cx.lift(a[i, j]) - Cx.lift(b[i, j]), "%s %s tower requested at matching order %d: the O(a_s^%d) element [%d,%d] is the one handed out at matching order %d%s"
+                                               % (kind, "singlet" if which == 0 else "non-singlet", k, m + 1, i, j, ref_len, " (MSBAR)" if msbar else ""))
+                                E.decide(log, v, "tower.%s:prefix" % kind, replay=(MOD, "replay_tower", {"kind": kind, "msbar": msbar, "k": k, "m": m, "which": which}), sampler=_sampler)
+        E.twin(log)
+        log.collect_ctx()
+        for s_ in sorted(stub.instances):
+            log.assume("axiom instance: " + s_)
+
+    _r, pm = explore(run)
+    log.path_stats(pm)
+
+
+def replay_tower(point, kind, msbar, k, m, which):
+    import importlib
+    import numpy as np
+
+    om = importlib.import_module(OME[kind])
+    nf = int(round(float(point.get("nf", 4))))
+    nf = min(max(nf, 3), 5)
+    L = float(point.get("L", 1.0))
+
+    def tower(order, Nz):
+        if kind == "sl":
+            return om.A_singlet((order, 0), Nz, nf, L, msbar) if which == 0 else om.A_non_singlet((order, 0), Nz, nf, L)
+        if kind == "pol":
+            return om.A_singlet((order, 0), Nz, nf, L) if which == 0 else om.A_non_singlet((order, 0), Nz, L)
+        return om.A_singlet((order, 0), Nz, L) if which == 0 else om.A_non_singlet((order, 0), Nz, L)
+
+    for Nz in (complex(4.2), complex(3.1, 2.5)):
+        a, b = np.array(tower(k, Nz)[m], dtype=complex), np.array(tower(m + 1, Nz)[m], dtype=complex)
+        if np.abs(a - b).max() > 1e-12 * max(1.0, float(np.abs(b).max())):
+            return {"detail": "%s %s matching tower at N=%r, nf=%d, L=%r: the O(a_s^%d) element requested with matching order %d is %r, with matching order %d it is %r"
+                              % (kind, "singlet" if which == 0 else "non-singlet", Nz, nf, L, m + 1, k, a.tolist(), m + 1, b.tolist())}
+    return None
+
+
 def _validate_rg(log, kind, order, msbar):
     """translator validation of the pieces: symbolic OME / anomalous dimensions at points == real float code"""
     E.unpatch()
@@ -649,6 +716,8 @@ def main():
     chk.case("scheme.sl", case_scheme)
     chk.case("rg.pol", case_rg_exact, kind="pol", order=2, msbar=False)
     chk.case("rg.tl", case_rg_exact, kind="tl", order=1, msbar=False)
+    for kind in ("sl", "pol", "tl"):
+        chk.case("tower.%s" % kind, case_tower, kind=kind)
     n3 = NS3[:3] if tier == "quick" else NS3
     for i, n in enumerate(n3):
         chk.case("rg.sl.as3.N%d" % i, case_rg_order3, Ns=[n])
